@@ -1,2 +1,232 @@
-(* C10 statements; proofs in Proofs/. *)
-From BaoV Require Import Model.IOSched.
+(* C10 - io failures surface at every operation index.  Statements only; proofs in Proofs/. *)
+From BaoV Require Import Model.IOCalls Proofs.IOReadExact Proofs.IOFaults Proofs.IOSinkFaults.
+
+(* first-failure semantics: a fault beyond the calls made on that object changes nothing *)
+Theorem C10_not_reached : forall sites fobj k kind ok,
+  N.of_nat (length (filter (fun s => obj_eqb (s_obj s) fobj) sites)) <= k ->
+  with_fault sites fobj k kind ok [] = (ok, sites).
+Proof. exact with_fault_not_reached. Qed.
+Print Assumptions C10_not_reached.
+
+(* otherwise the error of the (k+1)-th call on the object is the result; the log is the fault-free call list
+   up to and including that call: k calls on the object before it, none after it *)
+Theorem C10_surfaces : forall sites fobj k kind ok,
+  k < N.of_nat (length (filter (fun s => obj_eqb (s_obj s) fobj) sites)) ->
+  exists pre s post,
+    sites = pre ++ s :: post /\ obj_eqb (s_obj s) fobj = true /\
+    N.of_nat (length (filter (fun s => obj_eqb (s_obj s) fobj) pre)) = k /\
+    with_fault sites fobj k kind ok [] = (s_err s kind, pre ++ [s]).
+Proof. exact with_fault_surfaces. Qed.
+Print Assumptions C10_surfaces.
+
+Theorem C10_surfaces_log : forall sites fobj k kind ok,
+  k < N.of_nat (length (filter (fun s => obj_eqb (s_obj s) fobj) sites)) ->
+  exists pre s post,
+    with_fault sites fobj k kind ok [] = (s_err s kind, pre ++ [s]) /\
+    sites = (pre ++ [s]) ++ post /\ obj_eqb (s_obj s) fobj = true /\
+    N.of_nat (length (filter (fun s => obj_eqb (s_obj s) fobj) (pre ++ [s]))) = k + 1.
+Proof. exact with_fault_log. Qed.
+Print Assumptions C10_surfaces_log.
+
+(* a failing call never reads as success or as a hash mismatch *)
+Theorem C10_never_success : forall (HO : hops),
+  (forall t ws s, In s (create_sites t ws) ->
+     forall k, fst (s_err s k) <> 0 /\ fst (s_err s k) <> 1 /\ fst (s_err s k) <> 2) /\
+  (forall t s, In s (create_po_sites t) ->
+     forall k, fst (s_err s k) <> 0 /\ fst (s_err s k) <> 1 /\ fst (s_err s k) <> 2) /\
+  (forall fsm_ validated t data q s, In s (enc_sites HO fsm_ validated t data q) ->
+     forall k, fst (s_err s k) <> 0 /\ fst (s_err s k) <> 1 /\ fst (s_err s k) <> 2) /\
+  (forall from s, In s (copy_sites HO from) ->
+     forall k, fst (s_err s k) <> 0 /\ fst (s_err s k) <> 1 /\ fst (s_err s k) <> 2) /\
+  (forall t q s, In s (valid_ranges_sites t q) ->
+     forall k, fst (s_err s k) <> 0 /\ fst (s_err s k) <> 1 /\ fst (s_err s k) <> 2) /\
+  (forall t q s, In s (dec_sites t q) ->
+     forall k, fst (s_err s k) <> 0 /\ fst (s_err s k) <> 3 /\ fst (s_err s k) <> 4).
+Proof. exact never_success. Qed.
+Print Assumptions C10_never_success.
+
+(* creation, copy and the validator report every failure as a plain io error *)
+Theorem C10_plain_io : forall (HO : hops),
+  (forall t ws s, In s (create_sites t ws) -> forall k, s_err s k = (6, kcode k)) /\
+  (forall t s, In s (create_po_sites t) -> forall k, s_err s k = (6, kcode k)) /\
+  (forall from s, In s (copy_sites HO from) -> forall k, s_err s k = (6, kcode k)) /\
+  (forall t q s, In s (valid_ranges_sites t q) -> forall k, s_err s k = (6, kcode k)).
+Proof. exact plain_io_sites. Qed.
+Print Assumptions C10_plain_io.
+
+(* decoder: UnexpectedEof on a stream read is not-found (naming the item), everything else is Io *)
+Theorem C10_dec_classification : forall t q s, In s (dec_sites t q) ->
+  (s_obj s = OStreamIn -> fst (s_err s KUnexpectedEof) = 1 \/ fst (s_err s KUnexpectedEof) = 2) /\
+  (forall kind, s_obj s <> OStreamIn \/ kind <> KUnexpectedEof -> s_err s kind = (5, kcode kind)).
+Proof. exact dec_sites_class. Qed.
+Print Assumptions C10_dec_classification.
+
+Theorem C10_dec_not_found_names_item : forall t q s, In s (dec_sites t q) -> s_obj s = OStreamIn ->
+  exists c, In c (response_iter t (truncate_ranges q (tsize t))) /\ s_a s = chunk_size c /\
+    s_err s KUnexpectedEof = match c with CParent node _ _ _ _ => (1, node) | CLeaf start _ _ _ => (2, start) end.
+Proof. exact dec_sites_names. Qed.
+Print Assumptions C10_dec_not_found_names_item.
+
+(* encoders: fsm maps ConnectionReset on a stream write to ParentWrite / LeafWrite; sync never does *)
+Theorem C10_enc_classification_fsm : forall (HO : hops) validated t data q s, In s (enc_sites HO true validated t data q) ->
+  (s_obj s = OStreamOut -> fst (s_err s KConnectionReset) = 3 \/ fst (s_err s KConnectionReset) = 4) /\
+  (forall kind, s_obj s <> OStreamOut \/ kind <> KConnectionReset -> s_err s kind = (6, kcode kind)).
+Proof. exact enc_sites_class_fsm. Qed.
+Print Assumptions C10_enc_classification_fsm.
+
+Theorem C10_enc_write_failed_names_item : forall (HO : hops) validated t data q s,
+  In s (enc_sites HO true validated t data q) -> s_obj s = OStreamOut ->
+  exists c, In c (pre_order_chunks_iter t (if validated then truncate_ranges q (tsize t) else q) 0) /\
+    s_err s KConnectionReset = match c with CParent node _ _ _ _ => (3, node) | CLeaf start _ _ _ => (4, start) end.
+Proof. exact enc_sites_names. Qed.
+Print Assumptions C10_enc_write_failed_names_item.
+
+Theorem C10_enc_classification_sync : forall (HO : hops) validated t data q s, In s (enc_sites HO false validated t data q) ->
+  forall kind, s_err s kind = (6, kcode kind).
+Proof. exact enc_sites_class_sync. Qed.
+Print Assumptions C10_enc_classification_sync.
+
+(* decode_ranges with the sink faults switched off is decode_ranges *)
+Theorem C10_decode_no_fault : forall (HO : hops) enc q target ob,
+  decode_ranges_f HO no_faults enc q target ob = decode_ranges HO enc q target ob.
+Proof. exact decode_no_fault. Qed.
+Print Assumptions C10_decode_no_fault.
+Theorem C10_decode_no_fault_fsm : forall (HO : hops) enc q target ob,
+  decode_ranges_fsm_f HO no_faults enc q target ob = decode_ranges_fsm HO enc q target ob.
+Proof. exact decode_fsm_no_fault. Qed.
+Print Assumptions C10_decode_no_fault_fsm.
+
+(* a failing sink.  `decode_prefix m` = m steps of the fault-free loop (decode_step_f no_faults) from the initial
+   state; `sink_hit sf s` = the next item of state s goes to a sink call that the plan sf makes fail.
+   Either no state of the fault-free run is about to make the failing call and the result is the fault-free
+   one, or the result is Err (DIo kind) with the target and outboard of the fault-free run stopped at the first
+   such state, i.e. before the failing call. *)
+Theorem C10_decode_sink_fault : forall (HO : hops) sf enc q target ob,
+  ((forall m s1, (m < Nat.pow 2 LOOP_DEPTH)%nat -> decode_prefix HO m enc q target ob = inl s1 -> sink_hit HO sf s1 = false) /\
+   decode_ranges_f HO sf enc q target ob = decode_ranges HO enc q target ob) \/
+  (exists m st tg ob' nw ns it st',
+     (m < Nat.pow 2 LOOP_DEPTH)%nat /\
+     decode_prefix HO m enc q target ob = inl (st, tg, ob', nw, ns) /\
+     (forall m' s1, (m' < m)%nat -> decode_prefix HO m' enc q target ob = inl s1 -> sink_hit HO sf s1 = false) /\
+     dec_next HO st = Some (Ok it, st') /\
+     match it with IParent _ _ _ => sf_save sf = Some ns | ILeaf _ _ => sf_target sf = Some nw end /\
+     decode_ranges_f HO sf enc q target ob = (Err (DIo (sf_kind sf)), tg, ob', st')).
+Proof. exact decode_sink_fault. Qed.
+Print Assumptions C10_decode_sink_fault.
+
+Theorem C10_decode_sink_fault_fsm : forall (HO : hops) sf enc q target ob,
+  ((forall m s1, (m < Nat.pow 2 LOOP_DEPTH)%nat -> decode_prefix_fsm HO m enc q target ob = inl s1 -> sink_hit_fsm HO sf s1 = false) /\
+   decode_ranges_fsm_f HO sf enc q target ob = decode_ranges_fsm HO enc q target ob) \/
+  (exists m st tg ob' nw ns it st',
+     (m < Nat.pow 2 LOOP_DEPTH)%nat /\
+     decode_prefix_fsm HO m enc q target ob = inl (st, tg, ob', nw, ns) /\
+     (forall m' s1, (m' < m)%nat -> decode_prefix_fsm HO m' enc q target ob = inl s1 -> sink_hit_fsm HO sf s1 = false) /\
+     rd_next HO st = RMore st' (Ok it) /\
+     match it with IParent _ _ _ => sf_save sf = Some ns | ILeaf _ _ => sf_target sf = Some nw end /\
+     decode_ranges_fsm_f HO sf enc q target ob = (Err (DIo (sf_kind sf)), tg, ob', st')).
+Proof. exact decode_fsm_sink_fault. Qed.
+Print Assumptions C10_decode_sink_fault_fsm.
+
+(* spelled out for the j-th target write: after m = j + ns fault-free steps (j writes done, ns saves done) the
+   next item is a leaf; the error is returned with the target / outboard as they are then *)
+Theorem C10_decode_target_fault : forall (HO : hops) j kind enc q target ob,
+  decode_ranges_f HO (mkSF (Some j) None kind) enc q target ob = decode_ranges HO enc q target ob \/
+  exists m st tg ob' ns off d st',
+    steps m (decode_step_f HO no_faults) (dec_new HO (ob_root ob) (ob_tree ob) enc q, target, ob, 0, 0)
+      = inl (st, tg, ob', j, ns) /\ N.of_nat m = j + ns /\
+    dec_next HO st = Some (Ok (ILeaf off d), st') /\
+    decode_ranges_f HO (mkSF (Some j) None kind) enc q target ob = (Err (DIo kind), tg, ob', st').
+Proof. exact decode_target_fault. Qed.
+Print Assumptions C10_decode_target_fault.
+
+Theorem C10_decode_save_fault : forall (HO : hops) j kind enc q target ob,
+  decode_ranges_f HO (mkSF None (Some j) kind) enc q target ob = decode_ranges HO enc q target ob \/
+  exists m st tg ob' nw node l r st',
+    steps m (decode_step_f HO no_faults) (dec_new HO (ob_root ob) (ob_tree ob) enc q, target, ob, 0, 0)
+      = inl (st, tg, ob', nw, j) /\ N.of_nat m = nw + j /\
+    dec_next HO st = Some (Ok (IParent node l r), st') /\
+    decode_ranges_f HO (mkSF None (Some j) kind) enc q target ob = (Err (DIo kind), tg, ob', st').
+Proof. exact decode_save_fault. Qed.
+Print Assumptions C10_decode_save_fault.
+
+Theorem C10_decode_target_fault_fsm : forall (HO : hops) j kind enc q target ob,
+  decode_ranges_fsm_f HO (mkSF (Some j) None kind) enc q target ob = decode_ranges_fsm HO enc q target ob \/
+  exists m st tg ob' ns off d st',
+    steps m (decode_step_fsm_f HO no_faults) (rd_new HO (ob_root ob) q (ob_tree ob) enc, target, ob, 0, 0)
+      = inl (st, tg, ob', j, ns) /\ N.of_nat m = j + ns /\
+    rd_next HO st = RMore st' (Ok (ILeaf off d)) /\
+    decode_ranges_fsm_f HO (mkSF (Some j) None kind) enc q target ob = (Err (DIo kind), tg, ob', st').
+Proof. exact decode_fsm_target_fault. Qed.
+Print Assumptions C10_decode_target_fault_fsm.
+
+Theorem C10_decode_save_fault_fsm : forall (HO : hops) j kind enc q target ob,
+  decode_ranges_fsm_f HO (mkSF None (Some j) kind) enc q target ob = decode_ranges_fsm HO enc q target ob \/
+  exists m st tg ob' nw node l r st',
+    steps m (decode_step_fsm_f HO no_faults) (rd_new HO (ob_root ob) q (ob_tree ob) enc, target, ob, 0, 0)
+      = inl (st, tg, ob', nw, j) /\ N.of_nat m = nw + j /\
+    rd_next HO st = RMore st' (Ok (IParent node l r)) /\
+    decode_ranges_fsm_f HO (mkSF None (Some j) kind) enc q target ob = (Err (DIo kind), tg, ob', st').
+Proof. exact decode_fsm_save_fault. Qed.
+Print Assumptions C10_decode_save_fault_fsm.
+
+(* a failing k-th read call: std read_exact returns that error and makes no further call, unless it is done
+   (or has hit the end of the stream) within the first k calls; Interrupted is excluded: std retries it *)
+Theorem C10_stream_read_fault : forall (HO : hops) (r : reader HO) len k kind,
+  rd_fail HO r = Some (k, kind) -> kind <> KInterrupted -> rd_calls HO r <= k ->
+  exists x r', read_exact_sync HO r len = (x, r') /\
+    ((x = Err kind /\ rd_calls HO r' = k + 1) \/
+     (rd_calls HO r' <= k /\
+      ((len <= blen HO (rd_rest HO r) /\ x = Ok (firstn (N.to_nat len) (rd_rest HO r)) /\
+        rd_rest HO r' = skipn (N.to_nat len) (rd_rest HO r)) \/
+       (blen HO (rd_rest HO r) < len /\ x = Err KUnexpectedEof)))).
+Proof. exact read_exact_sync_fault. Qed.
+Print Assumptions C10_stream_read_fault.
+
+(* the same for iroh-io's read_bytes_exact, and for tokio's read_exact on schedules without Interrupted *)
+Theorem C10_stream_read_fault_tokio_bytes : forall (HO : hops) (r : reader HO) len k kind,
+  rd_fail HO r = Some (k, kind) -> kind <> KInterrupted -> rd_calls HO r <= k ->
+  exists x r', tokio_read_bytes_exact HO r len = (x, r') /\
+    ((x = Err kind /\ rd_calls HO r' = k + 1) \/
+     (rd_calls HO r' <= k /\
+      ((len <= blen HO (rd_rest HO r) /\ x = Ok (firstn (N.to_nat len) (rd_rest HO r)) /\
+        rd_rest HO r' = skipn (N.to_nat len) (rd_rest HO r)) \/
+       (blen HO (rd_rest HO r) < len /\ x = Err KUnexpectedEof)))).
+Proof. exact tokio_read_bytes_exact_fault. Qed.
+Print Assumptions C10_stream_read_fault_tokio_bytes.
+
+Theorem C10_stream_read_fault_tokio : forall (HO : hops) (r : reader HO) len k kind,
+  rd_fail HO r = Some (k, kind) -> kind <> KInterrupted -> rd_calls HO r <= k ->
+  (forall e, In e (rd_sched HO r) -> e <> EIntr) ->
+  exists x r', tokio_read_n HO r len = (x, r') /\
+    ((x = Err kind /\ rd_calls HO r' = k + 1) \/
+     (rd_calls HO r' <= k /\
+      ((len <= blen HO (rd_rest HO r) /\ x = Ok (firstn (N.to_nat len) (rd_rest HO r)) /\
+        rd_rest HO r' = skipn (N.to_nat len) (rd_rest HO r)) \/
+       (blen HO (rd_rest HO r) < len /\ x = Err KUnexpectedEof)))).
+Proof. exact tokio_read_n_fault. Qed.
+Print Assumptions C10_stream_read_fault_tokio.
+
+Theorem C10_stream_read_fault_now : forall (HO : hops) (r : reader HO) len k kind,
+  rd_fail HO r = Some (k, kind) -> kind <> KInterrupted -> rd_calls HO r = k -> 0 < len ->
+  exists r', read_exact_sync HO r len = (Err kind, r') /\ rd_calls HO r' = k + 1 /\ rd_rest HO r' = rd_rest HO r.
+Proof. exact read_exact_sync_fault_now. Qed.
+Print Assumptions C10_stream_read_fault_now.
+
+Theorem C10_stream_read_interrupted_fault_is_retried : forall (HO : hops),
+  read_exact_sync HO (mkRd HO [bzero HO] [EPending] 0 (Some (0, KInterrupted))) 1
+  = (Ok [bzero HO], mkRd HO [] [] 2 (Some (0, KInterrupted))).
+Proof. exact read_exact_sync_interrupted_fault_is_retried. Qed.
+Print Assumptions C10_stream_read_interrupted_fault_is_retried.
+
+(* the sync decoder step whose stream read is the failing call returns what the OStreamIn entry of dec_sites
+   says (maybe_parent_not_found / maybe_leaf_not_found of the kind), after exactly one more read call *)
+Theorem C10_decoder_read_fault : forall (HO : hops) (st : dstate_r HO) k kind c inner',
+  response_next (dr_inner HO st) = Some (c, inner') ->
+  rd_fail HO (dr_rd HO st) = Some (k, kind) -> kind <> KInterrupted -> rd_calls HO (dr_rd HO st) = k ->
+  0 < chunk_size c ->
+  exists e rd', dec_next_r HO st = Some (Err e, mkDR HO inner' (dr_stack HO st) rd') /\
+    rd_calls HO rd' = k + 1 /\ rd_rest HO rd' = rd_rest HO (dr_rd HO st) /\
+    e = match c with CParent node _ _ _ _ => maybe_parent_not_found kind node
+                   | CLeaf start _ _ _ => maybe_leaf_not_found kind start end.
+Proof. exact dec_next_r_read_fault. Qed.
+Print Assumptions C10_decoder_read_fault.
